@@ -435,7 +435,9 @@ func EncodePSV0(info PSVInfo) []byte {
 	//   pData[inputComp * MaskDwordsForComponents(outVectors)] = bitmap
 	//
 	// where inputComp = inputVectorRow * 4 + col.
-	writePSVDepTable(out, pos, depBytes, sigInputVectors, sigOutputVectors, info.InputToOutputTable)
+	viewIDBytes := psvViewIDMaskSize(info)
+	pos += int(viewIDBytes)
+	writePSVDepTable(out, pos, depBytes-viewIDBytes, sigInputVectors, sigOutputVectors, info.InputToOutputTable)
 	_ = depBytes // bytes accounted for in totalSize allocation above
 
 	return out
@@ -500,10 +502,9 @@ func psvDependencyTableSize(info PSVInfo) uint32 {
 	sigInputVectors := uint32(info.SigInputVectors)
 
 	var size uint32
-	// 1. Optional ViewID dependency tables — only when UsesViewID is set.
-	//    We never set UsesViewID, so this block is currently dead, but
-	//    kept for future-proofing.
-	//
+	// 1. ViewID dependency masks — only when UsesViewID is set: one
+	//    output mask per stream that has output vectors.
+	size += psvViewIDMaskSize(info)
 	// 2. Always: per-stream Input→Output dependency tables.
 	for _, ov := range sigOutputVectors {
 		if ov == 0 {
@@ -512,6 +513,21 @@ func psvDependencyTableSize(info PSVInfo) uint32 {
 		size += 4 * psvComputeInputOutputTableDwords(sigInputVectors, ov)
 	}
 	return size
+}
+
+// psvViewIDMaskSize is the size in bytes of the OutputsAffectedByViewID masks
+// that precede the Input→Output tables when RuntimeInfo1.UsesViewID is set
+// (DxilPipelineStateValidation.h ReadOrWrite): MaskDwords(outputVectors)
+// dwords for every stream with output vectors. The masks are left zero.
+func psvViewIDMaskSize(info PSVInfo) uint32 {
+	if !info.UsesViewID || (len(info.PSVSigInputs) == 0 && len(info.PSVSigOutputs) == 0) {
+		return 0
+	}
+	// stream 0 only, as in psvDependencyTableSize
+	if info.SigOutputVectors == 0 {
+		return 0
+	}
+	return 4 * psvComputeMaskDwordsFromVectors(uint32(info.SigOutputVectors))
 }
 
 func writePSVSigElement(out []byte, pos int, elem *PSVSignatureElement) int {
